@@ -13,6 +13,7 @@ import Cosi.Driver.KeyStorage
 import Cosi.Driver.Queue
 import Cosi.Driver.DepDB
 import Cosi.Driver.Selector
+import Cosi.Driver.Alias
 
 open Cosi
 
@@ -32,7 +33,8 @@ def engines : List (String × Engine) := [
   ("registry", ⟨Driver.DepDB.RSt, Driver.DepDB.rinit, Driver.DepDB.rstepLine⟩),
   ("selector", ⟨Driver.Selector.St, Driver.Selector.init, Driver.Selector.stepLine⟩),
   ("pipeline", ⟨Driver.Pipeline.St, Driver.Pipeline.init, Driver.Pipeline.stepLine⟩),
-  ("ctrl", ⟨Driver.Ctrl.St, Driver.Ctrl.init, Driver.Ctrl.stepLine⟩)
+  ("ctrl", ⟨Driver.Ctrl.St, Driver.Ctrl.init, Driver.Ctrl.stepLine⟩),
+  ("alias", ⟨Driver.Alias.St, Driver.Alias.init, Driver.Alias.stepLine⟩)
 ]
 
 partial def loop (e : Engine) (spec : Bool) (inp : IO.FS.Stream) (out : IO.FS.Stream) (st : e.σ) : IO Unit := do
